@@ -537,7 +537,7 @@ def run(ctx):
     except Exception as e:     # noqa
         trans_err = '%s: %s' % (type(e).__name__, e)
     # 1. theorems (re-proves inv2_correct / inv3_correct against the regenerated file)
-    pr = vlib.coq_props('C14')
+    pr = vlib.coq_props('C14', extra_targets=['model/DistrQ.vo'])
     ctx.cov.update(obligations=len(pr['theorems']), discharged=pr['discharged'], theorems=pr['theorems'],
                    axioms=pr['axioms'],
                    checker_cmd='tools/translate/vmi_inv.py; make -C /verif/coq props/C14.vo (coqc 8.16.1, full .vo '
